@@ -110,6 +110,7 @@ func Errorf(format string, v ...interface{}) {
 // Crit is a convenient alias for Root().Crit
 func Crit(msg string, ctx ...interface{}) {
 	root.write(msg, LvlCrit, ctx, skipLevel)
+	simCrit(msg, ctx)
 	os.Exit(1)
 }
 
